@@ -483,6 +483,39 @@ impl St {
                 if ps.iter().copied().collect::<BTreeSet<u32>>() != want || ps.len() != want.len() {
                     bad!("C19", "par_extend", "by-reference par_extend on a HashSet differs from the sequential extend");
                 }
+                // the same into EMPTY targets (fresh, and allocated then cleared)
+                let mut e1: hb::HashSet<u32, PlanBuildHasher> = Default::default();
+                p.install(|| e1.par_extend(pairs.par_iter().map(|e| &e.0)));
+                let mut e2: hb::HashSet<u32, PlanBuildHasher> = hb::HashSet::with_capacity_and_hasher(64, Default::default());
+                e2.insert(1);
+                e2.clear();
+                p.install(|| e2.par_extend(pairs.par_iter().map(|e| e.0)));
+                let mut e3: hb::HashMap<u32, u64, PlanBuildHasher> = Default::default();
+                p.install(|| e3.par_extend(pairs.par_iter().map(|e| (&e.0, &e.1))));
+                let want_map: std::collections::BTreeMap<u32, u64> = pairs.iter().copied().collect();
+                if e1.len() != want.len() || e1.iter().copied().collect::<BTreeSet<u32>>() != want || e2.len() != want.len() || e2.iter().copied().collect::<BTreeSet<u32>>() != want {
+                    bad!("C19", "par_extend", "par_extend into an empty HashSet: {} / {} elements, sequential extend gives {}", e1.len(), e2.len(), want.len());
+                }
+                if e3.len() != want_map.len() || sorted(e3.iter().map(|(k, v)| (*k, *v)).collect::<Vec<_>>()) != want_map.iter().map(|(k, v)| (*k, *v)).collect::<Vec<_>>() {
+                    bad!("C19", "par_extend", "by-reference par_extend into an empty HashMap differs from the sequential extend");
+                }
+                // par_drain created and dropped without being driven: the collection is emptied all the
+                // same (elements with and without drop glue), and stays usable
+                let n_before = pm.len();
+                drop(pm.par_drain());
+                drop(ps.par_drain());
+                let mut pt: hb::HashTable<u64> = hb::HashTable::new();
+                for (k, v) in &pairs {
+                    pt.insert_unique(self.plan.hash(*k as u64), *v, |x| *x);
+                }
+                drop(pt.par_drain());
+                if !pm.is_empty() || !ps.is_empty() || !pt.is_empty() {
+                    bad!("C19", "par_drain-not-empty", "par_drain dropped without being driven leaves {} / {} / {} elements (map of {n_before}, set, table)", pm.len(), ps.len(), pt.len());
+                }
+                pm.insert(1, 2);
+                if pm.get(&1) != Some(&2) || pm.len() != 1 {
+                    bad!("C19", "par_drain-not-usable", "map unusable after an undriven par_drain");
+                }
             }
             _ => {
                 // parallel set operations and predicates vs sequential counterparts
